@@ -175,6 +175,11 @@ func checkC11(c *Ctx) {
 		c.Undecided("C11-R1", "package tcell", "-", "not loaded")
 		return
 	}
+	c.Rule("C11-R17", "bracketed paste and focus reporting survive Suspend/Resume: the remembered modes are stored only by the application-facing togglers, nothing reachable from Suspend, Resume or Fini stores them (a pasted text arrives without its brackets otherwise)")
+	c.Expect("C11-R17", 2)
+	c.asRule("C04-R4", "C11-R17", func() {
+		checkRememberedModes(c, p, "C04-R4", "tScreen", []string{"pasteEnabled", "focusEnabled"}, []string{"Suspend", "Resume", "Fini", "engage", "disengage"})
+	})
 	c.Rule("C11-R16", "mainLoop scans a freshly read chunk with expire=false; only the escape timer's branch says that the wait is over (how much is buffered says nothing about whether the rest of a character is still on its way)")
 	c.Expect("C11-R16", 1)
 	checkScanExpiry(c, p, "C11-R16")
